@@ -120,6 +120,11 @@ pub fn mul(x: GfElement, log_m: GfElement, exp: &Exp, log: &Log) -> GfElement {
 
 #[allow(clippy::needless_range_loop)]
 fn initialize_exp_log() -> ExpLog {
+    #[cfg(feature = "verif-hooks")]
+    crate::verif_hooks::table_event(
+        crate::verif_hooks::TABLE_EXP_LOG,
+        crate::verif_hooks::EVENT_INIT_BEGIN,
+    );
     let mut exp = Box::new([0; GF_ORDER]);
     let mut log = Box::new([0; GF_ORDER]);
 
@@ -155,10 +160,20 @@ fn initialize_exp_log() -> ExpLog {
 
     exp[GF_MODULUS as usize] = exp[0];
 
+    #[cfg(feature = "verif-hooks")]
+    crate::verif_hooks::table_event(
+        crate::verif_hooks::TABLE_EXP_LOG,
+        crate::verif_hooks::EVENT_INIT_END,
+    );
     ExpLog { exp, log }
 }
 
 fn initialize_log_walsh() -> Box<LogWalsh> {
+    #[cfg(feature = "verif-hooks")]
+    crate::verif_hooks::table_event(
+        crate::verif_hooks::TABLE_LOG_WALSH,
+        crate::verif_hooks::EVENT_INIT_BEGIN,
+    );
     let log = *EXP_LOG.log;
 
     let mut log_walsh: Box<LogWalsh> = Box::new([0; GF_ORDER]);
@@ -167,10 +182,20 @@ fn initialize_log_walsh() -> Box<LogWalsh> {
     log_walsh[0] = 0;
     fwht::fwht(log_walsh.as_mut(), GF_ORDER);
 
+    #[cfg(feature = "verif-hooks")]
+    crate::verif_hooks::table_event(
+        crate::verif_hooks::TABLE_LOG_WALSH,
+        crate::verif_hooks::EVENT_INIT_END,
+    );
     log_walsh
 }
 
 fn initialize_mul16() -> Box<Mul16> {
+    #[cfg(feature = "verif-hooks")]
+    crate::verif_hooks::table_event(
+        crate::verif_hooks::TABLE_MUL16,
+        crate::verif_hooks::EVENT_INIT_BEGIN,
+    );
     let exp = &*EXP_LOG.exp;
     let log = &*EXP_LOG.log;
     let mut mul16 = vec![[[0; 16]; 4]; GF_ORDER];
@@ -185,10 +210,20 @@ fn initialize_mul16() -> Box<Mul16> {
         }
     }
 
+    #[cfg(feature = "verif-hooks")]
+    crate::verif_hooks::table_event(
+        crate::verif_hooks::TABLE_MUL16,
+        crate::verif_hooks::EVENT_INIT_END,
+    );
     mul16.into_boxed_slice().try_into().unwrap()
 }
 
 fn initialize_mul128() -> Box<Mul128> {
+    #[cfg(feature = "verif-hooks")]
+    crate::verif_hooks::table_event(
+        crate::verif_hooks::TABLE_MUL128,
+        crate::verif_hooks::EVENT_INIT_BEGIN,
+    );
     // Based on:
     // https://github.com/catid/leopard/blob/22ddc7804998d31c8f1a2617ee720e063b1fa6cd/LeopardFF16.cpp#L375
     let exp = &*EXP_LOG.exp;
@@ -216,11 +251,21 @@ fn initialize_mul128() -> Box<Mul128> {
         }
     }
 
+    #[cfg(feature = "verif-hooks")]
+    crate::verif_hooks::table_event(
+        crate::verif_hooks::TABLE_MUL128,
+        crate::verif_hooks::EVENT_INIT_END,
+    );
     mul128.into_boxed_slice().try_into().unwrap()
 }
 
 #[allow(clippy::needless_range_loop)]
 fn initialize_skew() -> Box<Skew> {
+    #[cfg(feature = "verif-hooks")]
+    crate::verif_hooks::table_event(
+        crate::verif_hooks::TABLE_SKEW,
+        crate::verif_hooks::EVENT_INIT_BEGIN,
+    );
     let exp = &*EXP_LOG.exp;
     let log = &*EXP_LOG.log;
 
@@ -258,5 +303,10 @@ fn initialize_skew() -> Box<Skew> {
         skew[i] = log[skew[i] as usize];
     }
 
+    #[cfg(feature = "verif-hooks")]
+    crate::verif_hooks::table_event(
+        crate::verif_hooks::TABLE_SKEW,
+        crate::verif_hooks::EVENT_INIT_END,
+    );
     skew
 }
